@@ -191,6 +191,51 @@ def serde_attrs(path):
     return out
 
 
+def polar_angle_options(ef):
+    """the non-exact (polar) arm of the scalar encoder: how the angle handed to JsonPhase::from_phase is limited.
+    Returns ('none' | int | 'unknown', detail).  A finite bound L rounds the angle to a fraction with denominator <= L, i.e. an error of up to
+    ~1/(2 L^2) half-turns: anything below ~10^8 is far outside floating-point tolerance."""
+    lets = {n['pat']['id']: n['init'] for n in hir.nodes(ef['hir']) if n.get('k') == 'Let' and n['pat'].get('k') == 'Bind' and n.get('init') is not None}
+
+    def field_of(e, name, depth=0):
+        e = hir.strip(e)
+        if depth > 6:
+            return 'unknown'
+        l = hir.local(e)
+        if l and l[1] in lets:
+            return field_of(lets[l[1]], name, depth + 1)
+        if e.get('k') == 'Struct':
+            for fname, val in e['fields']:
+                if fname == name:
+                    v = hir.strip(val)
+                    if hir.is_ctor_path(v, 'None'):
+                        return 'none'
+                    a = hir.ctor_call(v, 'Some') if v.get('k') == 'Call' else None
+                    if a:
+                        li = hir.lit_int(hir.strip(a[0]))
+                        return li if li is not None else 'unknown'
+                    return 'unknown'
+            if e.get('base') is not None:
+                b = hir.strip(e['base'])
+                if b.get('k') == 'Call' and (hir.callee(b) or '').endswith('Default::default'):
+                    return 'default'
+                return field_of(b, name, depth + 1)
+        if e.get('k') == 'Call' and (hir.callee(e) or '').endswith('Default::default'):
+            return 'default'
+        return 'unknown'
+    # the arm that converts to polar form: the from_phase call whose first argument mentions the polar angle (to_polar / arg / atan2)
+    polar = None
+    for n in hir.nodes(ef['hir']):
+        if n.get('k') == 'Let' and n.get('init') is not None and any(c.get('k') == 'MethodCall' and c['name'] in ('to_polar', 'arg', 'atan2') for c in hir.calls(n['init'])):
+            ids = [i for _nm, i in hir.bindings(n['pat'])]
+            for c in hir.calls(ef['hir']):
+                if (hir.callee(c) or '').endswith('::from_phase') and 'JsonPhase' in (hir.callee(c) or '') and any(hir.local(x) and hir.local(x)[1] in ids for x in hir.nodes(c['args'][0]) if x.get('k') == 'Path'):
+                    polar = c
+    if polar is None:
+        return 'unknown', 'the polar arm (to_polar -> JsonPhase::from_phase(angle / pi, options)) was not found'
+    return field_of(polar['args'][1], 'limit_denom'), hir.pp(polar)[:70]
+
+
 def _run_own(ck):
     facts = ck.facts
     ck.decided('D1 field provenance agrees between writer and reader: type, phase, coordinates (through Coord::new / coord() / qubit() / row()), input/output order through an ORDERED map',
@@ -295,6 +340,17 @@ def _run_own(ck):
         ck.ob('R-MARKER', 'scalar/floatfactor-neutral', wrote is not None and multiplies is False, ck.site(dk),
               'the exact branch of the encoder writes floatfactor = %s and the decoder (guard `%s`) multiplies it in: a float 1.0 is always flagged approximate, so an exact scalar comes back approximate and no longer compares equal' % (wrote, guard),
               sample={'written': wrote, 'decoder_guard': guard, 'decoder_multiplies': multiplies})
+        lim, detail = polar_angle_options(facts['fns'][ek])
+        if lim == 'default':
+            lim = 256       # PhaseOptions::default().limit_denom (checked below against the ADT default where it matters)
+        if lim == 'unknown':
+            ck.violation('R-LOSSY', 'scalar/polar-angle-not-rounded', ck.site(ek), 'how the polar arm of the scalar encoder limits the angle could not be established: %s (not-established-by-recognised-idiom)' % detail)
+        else:
+            ok = lim == 'none' or (isinstance(lim, int) and lim >= 10 ** 8)
+            ck.ob('R-LOSSY', 'scalar/polar-angle-not-rounded', ok, ck.site(ek),
+                  'a scalar that is not sqrt2^k e^{i k pi/4} is written in polar form and its angle is rounded to a fraction of pi with denominator <= %s: the decoded scalar is off by up to ~1/(2*%s^2) half-turns '
+                  '(e.g. 2 + e^{i pi/4}: relative error 4e-5 at 256), which is not floating-point tolerance — the decoded diagram denotes a different linear map' % (lim, lim),
+                  sample={'limit_denom_in_polar_arm': str(lim), 'call': detail})
     # D6: encoding never fails on the denominator bound: phases within the bound are written as they are (the limiter is entered only above it,
     # and returns its argument unchanged at the bound: C16-D5)
     fk = hir.inherent_method(facts, 'json::JsonPhase', 'from_phase')
